@@ -92,7 +92,7 @@ def nontrivial(chk, p, r, m):
 
 
 def run(chk):
-    n = 400 if chk.tier == "quick" else 12000
+    n = 1200 if chk.tier == "quick" else 12000
     chk.rule = ("random projects with raised conflict/provides_unique/disable density through the real CLI; compared with the model "
                 "on decision + ordered module list; oracle: every pair of selected modules checked against conflicts/provides from "
                 "the dump and disables/provides_unique from the project files; non-trivial = a configured build has conflicts or "
